@@ -235,7 +235,11 @@ func c14RunE2E(prop string, cfg c14RunCfg) *c14Result {
 		case "hold", "drain":
 			w.operatorAction(a.Kind, held)
 		case "add":
-			w.addContainers(cfg.LateAdd)
+			if a.N > 0 {
+				w.addContainers(a.N)
+			} else {
+				w.addContainers(cfg.LateAdd)
+			}
 		case "add-rare":
 			for _, t := range cfg.RareLate {
 				c := w.rareContainer(t)
@@ -613,7 +617,10 @@ func c14RunE2E(prop string, cfg c14RunCfg) *c14Result {
 			continue
 		}
 		for _, win := range vm.windows {
-			if win.gen != e.gen || sc.tc <= win.from || (win.to != 0 && sc.tc >= win.to) {
+			// the whole call must lie inside the window: a call that began
+			// before the operator's "run" request may well have been served
+			// (pool lock) after it
+			if win.gen != e.gen || sc.tc <= win.from || (win.to != 0 && sc.tr >= win.to) {
 				continue
 			}
 			detail := fmt.Sprintf("StartContainer(%s) was called at %.3fms and sent the container to %s (fault kind %s), although %s at %.3fms (same dispatcher generation %d)\nevent history of the instance:\n%s",
@@ -705,7 +712,7 @@ func c14Entry(t *testing.T, prop string) {
 		defer c15Witness(t, run)
 	}
 	if prop == "C14" {
-		defer c14Stream(t, run, prop, "e2e-C14-slowssh", run.N(4, 12), func(rng *verifkit.Rand) c14RunCfg { return c14SlowSSHCfg(rng) })
+		defer c14Stream(t, run, prop, "e2e-C14-slowssh", run.N(6, 24), func(rng *verifkit.Rand) c14RunCfg { return c14SlowSSHCfg(rng) })
 	}
 	c14Stream(t, run, prop, "e2e-"+prop, run.N(18, 72), func(rng *verifkit.Rand) c14RunCfg { return c14GenCfg(rng, run.Thorough()) })
 }
